@@ -99,7 +99,8 @@ def weakref_ref(E, st, args, kw):
 def unpack_weakref_exact(E, st, args, kw):
     x = box(args[0])
     s2 = st.fork()
-    s2.assume(is_weakref(x))
+    s2.assume(is_weakref(x), D.deref(x) == U_NONE)
+    st.assume(z3.Implies(is_weakref(x), D.deref(x) != U_NONE))
     return [Res(st, VOpaque(z3.If(is_weakref(x), D.deref(x), x))), E.raise_(s2, "Pyro5.errors.DaemonError")]
 
 
@@ -497,3 +498,71 @@ def registry_frame(E):
     from contracts.frames import frame_obligations
     D = "Pyro5/server.py:Daemon."
     frame_obligations(E, "registry", {"objectsById": {D + "__init__", D + "register", D + "unregister", D + "_unregister_collected"}})
+
+
+# --- DaemonObject.get_metadata: what the handshake (C08) and the client's metadata request rely on -----------------------------------------------------------------
+
+members_of = z3.Function("exposed_members_of", U, U)
+
+
+@R.spec("Pyro5.server._get_exposed_members", doc="declared: the metadata dict of the object (its computation, the per-class cache and 'advertise = serve' are C02's harness); "
+                                                 "inspecting the members may run user code (properties): any Exception")
+def get_exposed_members_decl(E, st, args, kw):
+    from specs.opaque import new_odict
+    md = new_odict(st, "metadata")
+    st.event("get_exposed_members", box(args[0]), md)
+    return [Res(st, md), may_raise(E, st, "_get_exposed_members")]
+
+
+@R.spec("warnings.warn", doc="emits a warning: no effect on the program state (a warning filter turning it into an error is not modelled)")
+def warnings_warn(E, st, args, kw):
+    return [Res(st, NONE)]
+
+
+@R.contract
+class GetMetadata(_RegBase):
+    name = "Pyro5.server.DaemonObject.get_metadata"
+    props = ("C08", "C16")
+    raises = {"Pyro5.errors.DaemonError": "x_unknown", "builtins.Exception": "x_user"}
+    raises_any_subclass = ("builtins.Exception",)
+    trusted = ("_get_exposed_members(obj) is declared (metadata of that very object, or any Exception from user properties); warnings.warn has no effect",)
+
+    def setup(self, E, st):
+        d = self.mk(E, st)
+        reg = _registry(st, d)
+        self.dobj = st.get(reg, "daemon_object")
+        self.oid = VOpaque(z3.Const("objectId", U))
+        return {"self": self.dobj, "objectId": self.oid}
+
+    def _live(self, st):
+        p, v = _entry(st, self.d, self.oid.e)
+        target = z3.If(is_weakref(v), D.deref(v), v)
+        return z3.And(p, v != U_NONE, target != U_NONE), target
+
+    def ensures(self, E, old, st, a, result):
+        if E.cur_contract is not self:
+            return []
+        live, target = self._live(old)
+        calls = [e for e in st.events if e[0] == "get_exposed_members"]
+        ok = len(calls) == 1 and isinstance(result, VObj) and result.ref == calls[0][2].ref
+        return [("metadata is handed out only for an id under which a live object is registered NOW (the registry entry is looked up on every request)", live),
+                ("... and it is the metadata computed for that very object", z3.BoolVal(ok) if not ok else calls[0][1] == target),
+                ("the registry is only read", same_entry(old, st, self.d, KSTAR))]
+
+    def x_unknown(self, E, old, st, a, exc):
+        if E.cur_contract is not self:
+            return []
+        live, target = self._live(old)
+        user = [e for e in st.events if e[0] == "get_exposed_members"]
+        return [("DaemonError comes from the lookup only when no live object is registered under the id (or from user code inspecting it)",
+                 z3.Or(z3.Not(live), z3.BoolVal(bool(user)))),
+                ("the registry is only read", same_entry(old, st, self.d, KSTAR))]
+
+    def x_user(self, E, old, st, a, exc):
+        if E.cur_contract is not self:
+            return []
+        live, target = self._live(old)
+        # (a DaemonError is an Exception too: the unknown-id outcome lands here as well as in x_unknown)
+        user = [e for e in st.events if e[0] == "get_exposed_members"]
+        return [("any other failure comes from inspecting the live object's members (user code)", z3.Or(z3.Not(live), z3.BoolVal(bool(user)))),
+                ("the registry is only read", same_entry(old, st, self.d, KSTAR))]
